@@ -42,6 +42,9 @@ variable (A : E →ₗ[𝕜] E) (n M : Nat) (tol : ℝ)
 noncomputable abbrev colAt (v : E) (j : Nat) : Col 𝕜 E :=
   colAfter (⇑A) ((tol : ℝ) : 𝕜) j (initCol (α := 𝕜) M v)
 
+/-- the code model run in exact arithmetic with the real tolerance `tol` -/
+noncomputable abbrev runE (vs : List E) : State 𝕜 E := run (⇑A) n M ((tol : ℝ) : 𝕜) vs
+
 /-- the invariant gives the specification under the clause `NoClip` -/
 theorem spec_of_noClip (htol : 0 < tol) (v : E) (hv : v ≠ 0) (s : Nat) (hs : s ≤ M)
     (hnc : NoClip tol s (colAt A M tol v s)) : ArnoldiSpec A M v s (colAt A M tol v s) := by
